@@ -222,6 +222,26 @@ def run_c09(case):
                 op_ = net(tpoints(case, sp, xp.clone())).as_tensor
                 if not torch.allclose(op_, o[:, perm], rtol=1e-4, atol=1e-5):
                     out.append(viol("C09", "invariance", "output-depends-on-batch-order", ""))
+                # ---- the plain network (trunk_input_copied=False) on DIFFERENT locations per function: out[i, j] is
+                # the inner product with the trunk features of function i's own j-th location
+                if F >= 2 and op.get("distinct", True):
+                    xd = torch.rand(F, N, case["trunk_dim"], generator=g) * 2.0
+                    if branch_arg is not None:
+                        twin.fix_branch_input(arg if op["how"] not in ("functionset", "collection") else function_set(case, sp2, current))
+                    elif not stats.get("_twin_fixed"):
+                        pass
+                    try:
+                        od = twin(tpoints(case, sp, xd.clone())).as_tensor
+                        Bt = branch_features(twin, case, disc_values(case, sp2, current))
+                        Td = torch.stack([trunk_features(twin, case, xd[i]) for i in range(F)], dim=0)   # (F, N, c, m)
+                        wantd = torch.einsum("icm,ijcm->ijc", Bt, Td)
+                        stats["distinct_location_checks"] = stats.get("distinct_location_checks", 0) + 1
+                        if list(od.shape) != list(wantd.shape) or not torch.allclose(od, wantd, rtol=1e-4, atol=1e-5):
+                            out.append(viol("C09", "inner-product", "plain-network-output-wrong-for-per-function-locations", "",
+                                            max_abs=None if list(od.shape) != list(wantd.shape) else float((od - wantd).abs().max())))
+                    except Exception as ex:
+                        out.append(viol("C09", "run", "raises:" + type(ex).__name__, innermost_site(ex.__traceback__) + ":distinct",
+                                        msg=str(ex)[:200]))
                 # ---- R-twin: outputs, derivatives, parameter gradients
                 if branch_arg is not None:
                     twin.fix_branch_input(arg if op["how"] not in ("functionset", "collection") else function_set(case, sp2, current))
